@@ -10,15 +10,13 @@ open Echse.Lemmas.RrCandRfc Echse.Lemmas.RrMlyOk Echse.Spec.Cal Echse.Spec.RuleE
 
 /-- the date condition of `MonthlyInst` -/
 def MlyDate (r : Rule) (ds x : Inst) : Prop :=
-  if r.dom ≠ [] then mdayOk r x ∧ (r.dow = [] ∨ bydayLimit r x)
+  if r.dom ≠ [] then mdayOk r x ∧ (r.dow = [] ∨ bydayInMonth r x)
   else if r.dow ≠ [] then bydayInMonth r x
   else x.d = ds.d
 
-/-- the MONTHLY rules covered: BYMONTHDAY as the parser's bit set hands it out (at most 62 values), and no ordinals in
-BYDAY when BYMONTHDAY is there too (the code ignores such entries, the specification reads them as plain weekdays) -/
+/-- the MONTHLY rules covered: BYMONTHDAY as the parser's bit set hands it out (at most 62 values) -/
 structure MlySup (r : Rule) : Prop where
   domLen : r.dom.length ≤ 62
-  plain : r.dom ≠ [] → ∀ t ∈ r.dow, 1 ≤ t ∧ t ≤ 7
 
 /-- a date of the supported range -/
 structure DateIn (x : Inst) : Prop where
@@ -69,7 +67,7 @@ theorem mlyCtx_ds (r : Rule) (p : Inst) (nti : Nat) (hs : MlySup r) (hp : WfInst
 
 theorem mlyCtx_wd (r : Rule) (p : Inst) (nti : Nat) : (mlyCtxOf r p nti).wdMask = wdMaskOf r.dow := rfl
 
-theorem mlyCand_A (c : MlyCtx) (y m : Nat) (h : c.ds ≠ []) : mlyCand c y m = fillMlyYmd [] y m c.ds c.wdMask := by
+theorem mlyCand_A (c : MlyCtx) (y m : Nat) (h : c.ds ≠ []) : mlyCand c y m = fillMlyYmd [] y m c.ds c.r.dow c.wdMask := by
   have hn : c.ds.length ≠ 0 := by
     intro e; exact h (List.length_eq_zero_iff.mp e)
   unfold mlyCand
@@ -87,11 +85,12 @@ theorem mlyCand_B (c : MlyCtx) (y m : Nat) (h : c.ds = []) (hw : c.wdMask ≠ 0)
   dsimp only
   rw [if_neg hn, if_neg (fun h => hn h.2), if_pos hw]
 
-/-- BYMONTHDAY values `ds` with the weekday limit of `wdMask`, for a date `x` -/
-theorem mem_ymd_date (ds : List Int) (wdMask : Nat) (x : Inst) (hx : DateIn x) (hds : ∀ dd ∈ ds, -31 ≤ dd ∧ dd ≤ 31) :
-    packCand x.m x.d ∈ fillMlyYmd [] x.y x.m ds wdMask ↔
+/-- BYMONTHDAY values `ds` with the BYDAY limit, for a date `x` -/
+theorem mem_ymd_date (ds : List Int) (dow : List Int) (wdMask : Nat) (x : Inst) (hx : DateIn x)
+    (hds : ∀ dd ∈ ds, -31 ≤ dd ∧ dd ≤ 31) :
+    packCand x.m x.d ∈ fillMlyYmd [] x.y x.m ds dow wdMask ↔
       (∃ n ∈ ds, (0 < n ∧ n = x.d) ∨ (n < 0 ∧ (monthLen x.y x.m : Int) + 1 + n = x.d)) ∧
-      (wdMask >>> 1 = 0 ∨ bit wdMask (wdayOf (dayOf x)) = true) := by
+      DLimB dow wdMask x.y x.m x.d (wdayOf (dayOf x)) true := by
   have hv := hx.v
   have h31 := hv.d31
   have hwd : ymdGetWday x.y x.m x.d = wdayOf (dayOf x) := hx.wd x.d h31
@@ -189,12 +188,51 @@ theorem mem_cw_date (r : Rule) (hr : WfRule r) (x : Inst) (hx : DateIn x) (hw : 
         unfold wdOf at hwt; omega)
       exact ⟨t, ht, hc0, by rw [sp.1]; exact sp.2, by rw [sp.1]⟩
 
+/-- BYDAY as a limit within a month (`dow_limit_p` with `mp`): plain weekdays, or the n-th ones of the month -/
+theorem dlim_month (r : Rule) (hr : WfRule r) (x : Inst) (hx : DateIn x) :
+    DLimB r.dow (wdMaskOf r.dow) x.y x.m x.d (wdayOf (dayOf x)) true ↔ (r.dow = [] ∨ bydayInMonth r x) := by
+  have hv := hx.v
+  have hm : 1 ≤ x.m ∧ x.m ≤ 12 := ⟨hv.1, hv.2.1⟩
+  have hwdr := wdayOf_range (dayOf x)
+  have hwdx : wdAdd (ymdGetWday x.y x.m 1) (x.d - 1) = wdayOf (dayOf x) := by rw [hx.wdAdd, hx.dayOf]
+  unfold DLimB
+  rw [dowLimitP_iff, mask_bit_iff r hr _ hwdr]
+  simp only [if_true]
+  constructor
+  · rintro (h | ⟨t, ht, h1, h2⟩ | ⟨_, t, ht, h1, h2, h3⟩)
+    · left
+      apply Classical.byContradiction; intro c
+      exact (wdMask_ne_zero r).2 c h
+    · exact Or.inr ⟨t, ht, h2, Or.inl h1⟩
+    · right
+      have hwt := hr.dow t ht
+      have sp := (ymcwGetDom_spec x.y x.m (t / 8) (t % 8).toNat hm (by omega) (by omega) x.d).1
+        ⟨h3, by have := hv.2.2.1; omega⟩
+      rw [hwdx, hx.ndom] at sp
+      refine ⟨t, ht, ?_, Or.inr ((nth_month x hx _).2 sp.2.2.2)⟩
+      unfold wdOf; omega
+  · rintro (h | ⟨t, ht, hwt, ho | hn⟩)
+    · left; rw [h]; rfl
+    · exact Or.inr (Or.inl ⟨t, ht, ho, hwt⟩)
+    · right; right
+      have hwf := hr.dow t ht
+      have hn' := (nth_month x hx _).1 hn
+      have hc0 : t / 8 ≠ 0 := by unfold ordOf at hn'; omega
+      have c : wdMaskOf r.dow % 2 = 1 := (wdMask_bit0 r.dow).2 ⟨t, ht, by omega⟩
+      have sp := (ymcwGetDom_spec x.y x.m (t / 8) (t % 8).toNat hm (by omega) (by omega) x.d).2 (by
+        rw [hwdx, hx.ndom]
+        refine ⟨hv.2.2.1, hv.2.2.2, ?_, hn'⟩
+        unfold wdOf at hwt; omega)
+      refine ⟨c, t, ht, hc0, ?_, sp.1⟩
+      unfold wdOf at hwt; omega
+
 /-- L1: the candidate set of a month is the set of days the specification allows -/
 theorem mlyCand_iff (r : Rule) (p : Inst) (nti : Nat) (hr : WfRule r) (hp : WfInst p) (hs : MlySup r)
     (x : Inst) (hx : DateIn x) :
     packCand x.m x.d ∈ mlyCand (mlyCtxOf r p nti) x.y x.m ↔ MlyDate r p x := by
   have hds := mlyCtx_ds r p nti hs hp
   have hwm := mlyCtx_wd r p nti
+  have hrr : (mlyCtxOf r p nti).r = r := rfl
   unfold MlyDate
   by_cases c1 : r.dom = []
   · rw [if_neg (by simp [c1])]
@@ -202,11 +240,11 @@ theorem mlyCand_iff (r : Rule) (p : Inst) (nti : Nat) (hr : WfRule r) (hp : WfIn
     · -- DTSTART's day of the month
       rw [if_neg (by simp [c2])]
       rw [if_pos ⟨c1, c2⟩] at hds
-      rw [mlyCand_A _ _ _ (by rw [hds]; simp), hds, hwm]
+      rw [mlyCand_A _ _ _ (by rw [hds]; simp), hds, hwm, hrr]
       have hpd := hp.day
       have hpd31 : p.d ≤ 31 := by have := getNdom_le p.y p.m; omega
-      rw [mem_ymd_date _ _ x hx (by intro dd hdd; simp at hdd; omega)]
-      have hw0 : wdMaskOf r.dow >>> 1 = 0 := by rw [c2]; rfl
+      rw [mem_ymd_date _ _ _ x hx (by intro dd hdd; simp at hdd; omega)]
+      have hw0 : wdMaskOf r.dow = 0 := by rw [c2]; rfl
       constructor
       · rintro ⟨⟨n, hn, hc⟩, _⟩
         simp at hn; omega
@@ -221,29 +259,11 @@ theorem mlyCand_iff (r : Rule) (p : Inst) (nti : Nat) (hr : WfRule r) (hp : WfIn
   · -- BYMONTHDAY, BYDAY limits
     rw [if_pos c1]
     rw [if_neg (fun h => c1 h.1)] at hds
-    rw [mlyCand_A _ _ _ (by rw [hds]; exact c1), hds, hwm]
-    rw [mem_ymd_date _ _ x hx (fun dd hdd => by have := hr.dom dd hdd; omega)]
-    have hpl := hs.plain c1
-    have hwdr := wdayOf_range (dayOf x)
+    rw [mlyCand_A _ _ _ (by rw [hds]; exact c1), hds, hwm, hrr]
+    rw [mem_ymd_date _ _ _ x hx (fun dd hdd => by have := hr.dom dd hdd; omega)]
     apply and_congr
     · unfold mdayOk; simp [c1]
-    · constructor
-      · rintro (h | h)
-        · left
-          have := (wdMask_shr r).1 h
-          apply List.eq_nil_iff_forall_not_mem.2
-          intro t ht
-          have : t ∈ plainDays r := (mem_plainDays r t).2 ⟨ht, hpl t ht⟩
-          rw [‹plainDays r = []›] at this; cases this
-        · right
-          obtain ⟨t, ht, _, h2⟩ := (mask_bit_iff r hr _ hwdr).1 h
-          exact ⟨t, ht, h2⟩
-      · rintro (h | ⟨t, ht, h2⟩)
-        · left; rw [h]; rfl
-        · right
-          refine (mask_bit_iff r hr _ hwdr).2 ⟨t, ht, ?_, h2⟩
-          have := hpl t ht
-          unfold ordOf; omega
+    · exact dlim_month r hr x hx
 
 /-- every candidate of a month is a real day of that month -/
 theorem mlyCand_shape (r : Rule) (p : Inst) (nti : Nat) (hr : WfRule r) (hp : WfInst p) (y m : Nat)
